@@ -111,7 +111,9 @@ def _make_mask_or_where_func(docstring, which):
     @convert_string_args_to_timestamp
     def handle_tuple_mask(self, left, right):
         return _mask_stairs(
-            self, sc.Stairs().layer(start=left, end=right), inverse=False
+            self,
+            sc.Stairs(closed=self.closed).layer(start=left, end=right),
+            inverse=False,
         )
 
     @convert_string_args_to_timestamp
